@@ -73,9 +73,7 @@ func runC04(w *World, r *Report) {
 						cc, ok := peel(v).(*ssa.Call)
 						return ok && isCallTo(cc, "ConnectionEdgeI).GetCondition") && edge != nil && cc.Call.Value == edge
 					}
-					isName := func(v ssa.Value) bool {
-						return strings.HasSuffix(Path(v), "procIO.Name") || strings.HasSuffix(Path(v), ".Name") && strings.Contains(Path(v), "procIO")
-					}
+					isName := func(v ssa.Value) bool { return typedField(v) == "ProcessorIO.Name" }
 					if isCond(l) && isName(rr) || isCond(rr) && isName(l) {
 						cond = true
 					}
@@ -101,8 +99,10 @@ func runC04(w *World, r *Report) {
 		}
 		// executed processor
 		okEx := false
-		for _, af := range ef.AnonFuncs {
+		var execCalls []ssa.CallInstruction
+		for _, af := range Anons(ef)[1:] {
 			for _, c := range CallsIn(af, false, "ProcessorI).Execute") {
+				execCalls = append(execCalls, c)
 				okEx = strings.Contains(Path(c.Common().Value), "GetProcessor(") && strings.Contains(Path(c.Common().Value), "free:node") && strings.Contains(Path(c.Common().Args[0]), "GetName(") && strings.Contains(Path(c.Common().Args[1]), "free:apiStream")
 			}
 		}
@@ -113,7 +113,8 @@ func runC04(w *World, r *Report) {
 		if okH {
 			cs := CondsOf(gn[0].Block())
 			a := condsHave(cs, true, func(v ssa.Value) bool {
-				return isCallTo0(v, "StreamType).IsResponseType") && strings.Contains(Path(v), "procIO.Type")
+				c, isC := peel(v).(*ssa.Call)
+				return isC && isCallTo(c, "StreamType).IsResponseType") && len(c.Call.Args) > 0 && typedField(c.Call.Args[0]) == "ProcessorIO.Type"
 			})
 			b := condsHave(cs, true, func(v ssa.Value) bool {
 				return isCallTo0(v, "StreamType).IsRequestType") && strings.Contains(Path(v), "GetType(param:apiStream)")
@@ -153,9 +154,10 @@ func runC04(w *World, r *Report) {
 			nApp++
 			what := ""
 			Derives(ap.Call.Args[1], func(x ssa.Value) bool {
-				p := Path(x)
-				for _, s := range []string{"ShortCircuit.ReqAction", "ShortCircuit.RespAction", "procIO.ReqAction", "procIO.RespAction"} {
-					if strings.HasSuffix(p, s) && what == "" {
+				// identified by the type of the struct the field is read from, not by the name of a local
+				tf := typedField(x)
+				for from, s := range map[string]string{"ShortCircuit.ReqAction": "ShortCircuit.ReqAction", "ShortCircuit.RespAction": "ShortCircuit.RespAction", "ProcessorIO.ReqAction": "procIO.ReqAction", "ProcessorIO.RespAction": "procIO.RespAction"} {
+					if tf == from && what == "" {
 						what = s
 					}
 				}
@@ -355,7 +357,7 @@ func c04Orchestration(w *World, r *Report) {
 		// node = phi(root.GetNode(), first edge target)
 		ok := false
 		okGuard := false
-		for _, af := range xf.AnonFuncs {
+		for _, af := range Anons(xf)[1:] {
 			for _, c := range CallsIn(af, false, "stream.Stream).ExecuteFlow") {
 				_ = c
 				ok = true
@@ -373,7 +375,9 @@ func c04Orchestration(w *World, r *Report) {
 		r.Check(okGuard, "R6", "executeFlow/first-edge-guarded", xf.Pos(), "startFromNode.GetEdges()[0] is read only under len(startFromNode.GetEdges()) != 0")
 		st := false
 		Instrs(xf, func(in ssa.Instruction) {
-			if s, isS := in.(*ssa.Store); isS && strings.Contains(Path(s.Val), "EntryPointI).GetNode(") && strings.Contains(Path(s.Val), "GetRoot(") {
+			if s, isS := in.(*ssa.Store); isS && Derives(s.Val, func(x ssa.Value) bool {
+				return isCallTo0(x, "EntryPointI).GetNode") && strings.Contains(Path(x), "GetRoot(")
+			}) {
 				st = true
 			}
 		})
